@@ -29,7 +29,7 @@ def expected_allocation(b, action):
     if sp[0] == "discrete":
         vec = sp[1][int(action)]
     else:
-        vec = action
+        vec = E.action_values(action, b.case.get("action_type", "array64"))
     return {i: float(v) for i, v in enumerate(_drop_cash(b, vec)) if float(v) != 0.0}
 
 
@@ -146,7 +146,7 @@ def _replay_episode(case, b, res, checks, actions):
             break
         action = actions[j - 1]
         try:
-            out = env.step(E.to_action(action))
+            out = env.step(E.to_action(action, case.get("action_type", "array64")))
         except EndOfEpisodeError as exc:
             res.fail("step %d raised EndOfEpisodeError: %s" % (j, str(exc)[:100]))
             return stats
